@@ -463,6 +463,28 @@ theorem c12_userinfo_only (cfg : Cfg) (now : Clock) (tok : Artefact) (u : Str)
   obtain ⟨hv, _, h1, h2, h3, _, h5⟩ := acceptAccess_ok h
   exact ⟨verifies_signed hv, h2, h1, h3, h5⟩
 
+/-! ### the published JWKS -/
+
+/-- **JWKS.** Whatever kind of key the deployment signs with (RSA, P-256, P-384, P-521, Ed25519 —
+every kind keymaster derives an algorithm for) and whatever other keys it trusts: a token signed by
+one of the deployment's keys under that key's algorithm — as the token endpoint signs the ID token
+and the access token — verifies under the key set the JWKS handler publishes; and conversely a
+token that verifies under the published set verifies for keymaster's own consumers. -/
+theorem c12_jwks (cfg : Cfg) (k : Key) (hk : k ∈ cfg.dep.trusted) (al : Alg) (hal : algOf k.ty = some al) (w : Wire) :
+    rpVerifies (published cfg) { claims := w, alg := al, signedBy := some k.id, sigAlg := al } = true ∧
+    (∀ a : Artefact, rpVerifies (published cfg) a = signedByDeployment cfg.dep a) := by
+  constructor
+  · simp only [rpVerifies, published, List.any_eq_true]
+    exact ⟨k, hk, by simp [hal]⟩
+  · intro a; rfl
+
+/-- every key kind the signer loader accepts and keymaster can sign tokens with has an algorithm -/
+example : [KeyType.rsa, .p256, .p384, .p521, .ed25519].all (fun t => (algOf t).isSome) = true := by decide
+/-- a P-521 signer next to an Ed25519 ssh-CA key: the ES512 token verifies under the published set -/
+example : rpVerifies (published { dep := { issuer := [], trusted := [⟨1, .ed25519⟩, ⟨2, .p521⟩] }, clients := [],
+                                   s256 := fun _ => [], openSealed := fun _ _ _ => none })
+    { claims := Wire.empty, alg := .ES512, signedBy := some 2, sigAlg := .ES512 } = true := by decide
+
 /-! ### the regenerated facts the model was transcribed from -/
 
 /-- **Sites.** The PKCE switch has exactly the arms modelled by `methodCheck`; a client may use PKCE
@@ -503,6 +525,14 @@ theorem c12_sites :
     cmps_idpOpenIDCTokenHandler = [⟨.subject, .ne, .loc "clientID".toList⟩, ⟨.expiration, .lt, .nowUnix⟩,
       ⟨.redirectURI, .ne, .form "redirect_uri".toList⟩, ⟨.typ, .ne, .lit codeType⟩] ∧
     KM.Gen.maxAgeSecondsAuthCookie = 16 * 3600 ∧ KM.Gen.idpOpenIDCMaxAuthProcessMaxDurationSeconds = 300 := by
+  decide
+
+/-- **Sites (JWKS).** The JWKS handler ranges over `KeymasterPublicKeys`, leaves no entry out, publishes
+the entry itself under its fingerprint — the fingerprint the token endpoint puts into `kid`. -/
+theorem c12_sites_jwks :
+    KM.Gen.C12.jwksRange = "state.KeymasterPublicKeys".toList ∧ KM.Gen.C12.jwksSkipConditions = [] ∧
+    KM.Gen.C12.jwksKey = "key".toList ∧ KM.Gen.C12.jwksKid = "kid".toList ∧
+    KM.Gen.C12.tokenKidHeader = "getKeyFingerprint(state.Signer.Public())".toList := by
   decide
 
 /-! ### non-vacuity -/
